@@ -12,6 +12,7 @@ void dump_more_det();
 void dump_more_util();
 void dump_more_macro();
 void dump_more_link();
+void dump_more_reader();
 static void dump_more()
 {
   dump_more_cond();
@@ -24,5 +25,6 @@ static void dump_more()
   dump_more_util();
   dump_more_macro();
   dump_more_link();
+  dump_more_reader();
 }
 #endif
